@@ -10,6 +10,7 @@ re-run in verbose mode so that the replay file shows the full observations.
 import re
 
 from . import common
+from . import universe
 
 MODULE = "StorageModel.Properties.C04"
 THEOREMS = [
@@ -521,6 +522,7 @@ def run(ctx, replay_cases=None):
     ctx.obligation("correspondence: implementation output = model output on every generated history "
                    "(dump, survivors, related-id lists, error enum after every transaction)",
                    not corr_bad, f"{len(corr_bad)} disagreement(s)")
+    universe.universe_stream(ctx, ["C04"])  # end of the generated-cases phase: the shared universe stream
     unknown = []
     for b in spec_bad:
         if common.classify(ctx, MATCHERS, b[0], {"impl": b[1], "model": b[2], "spec": b[3]}) is None:
